@@ -39,7 +39,8 @@ CHECKS = {
     },
     "C02": {
         "level": "exploration",
-        "tests": fam("C02", (2500, 480000), (25, 4800), (40, 1920), regress=False, mid=(1200, 230400), extra=({"name": "TestC02ManyFields", "quick": 60, "thorough": 5760, "min_per_shard": 20}, {"name": "TestC02Huge", "quick": 2, "thorough": 96, "min_per_shard": 2})),
+        "tests": fam("C02", (2500, 480000), (25, 4800), (40, 1920), regress=False, mid=(1200, 230400), extra=({"name": "TestC02ManyFields", "quick": 60, "thorough": 5760, "min_per_shard": 20}, {"name": "TestC02Huge", "quick": 2, "thorough": 96, "min_per_shard": 2},
+                                                                                              {"name": "TestC02Boundary", "quick": 120, "thorough": 11520, "min_per_shard": 20})),
         "assumptions": COMMON_ASSUMPTIONS,
     },
     "C03": {
@@ -49,7 +50,9 @@ CHECKS = {
     },
     "C04": {
         "level": "exploration",
-        "tests": fam("C04", (2000, 384000), (20, 3840), (8, 1536), mid=(1000, 192000), extra=({"name": "TestC04Big", "quick": 4, "thorough": 192, "min_per_shard": 4},)),
+        "tests": fam("C04", (2000, 384000), (20, 3840), (8, 1536), mid=(1000, 192000), extra=({"name": "TestC04Big", "quick": 4, "thorough": 192, "min_per_shard": 4},
+                             {"name": "TestC04Aligned", "quick": 150, "thorough": 14400, "min_per_shard": 20},
+                             {"name": "TestC04Counts", "quick": 30, "thorough": 2880, "min_per_shard": 8})),
         "assumptions": COMMON_ASSUMPTIONS,
     },
     "C06": {
@@ -60,8 +63,8 @@ CHECKS = {
     "C05": {
         "level": "exploration",
         "tests": [{"name": "TestC05Small", "quick": 8000, "thorough": 1920000}, {"name": "TestC05Wide", "quick": 300, "thorough": 72000}, {"name": "TestC05Huge", "quick": 12, "thorough": 960, "min_per_shard": 6},
-                  {"name": "TestC05Regress", "quick": 0}],
-        "assumptions": COMMON_ASSUMPTIONS + ["Advance targets are > the last returned document and non-decreasing (API contract); ReplaceActual only before the first step, with a subset of ActualBitmap(), on a non-1-hit iterator"],
+                  {"name": "TestC05Regress", "quick": 0}, {"name": "TestC05RegressAdvanceBeyond32", "quick": 0}],
+        "assumptions": COMMON_ASSUMPTIONS + ["Advance targets are > the last returned document and non-decreasing (API contract), any uint64 value including targets >= 2^32; ReplaceActual only before the first step, with a subset of ActualBitmap(), on a non-1-hit iterator"],
     },
     "C08": {
         "level": "exploration",
@@ -75,18 +78,21 @@ CHECKS = {
     },
     "C13": {
         "level": "exploration",
-        "tests": [{"name": "TestC13", "quick": 4000, "thorough": 768000}, {"name": "TestC13Wide", "quick": 60, "thorough": 3840, "min_per_shard": 20}, {"name": "TestC13Regress", "quick": 0}],
+        "tests": [{"name": "TestC13", "quick": 4000, "thorough": 768000}, {"name": "TestC13Wide", "quick": 60, "thorough": 3840, "min_per_shard": 20},
+                  {"name": "TestC13Fault", "quick": 1500, "thorough": 288000}, {"name": "TestC13FaultMid", "quick": 1000, "thorough": 192000}, {"name": "TestC13Regress", "quick": 0}],
         "assumptions": COMMON_ASSUMPTIONS + ["an object handed back as prealloc is dead afterwards (aliasing is the caller's responsibility)"],
     },
     "C16": {
         "level": "exploration",
         "tests": [{"name": "TestC16Small", "quick": 4000, "thorough": 768000}, {"name": "TestC16Wide", "quick": 30, "thorough": 5760, "min_per_shard": 8}, {"name": "TestC16Mid", "quick": 1000, "thorough": 192000}, {"name": "TestC16ManyFields", "quick": 100, "thorough": 9600, "min_per_shard": 20},
+                  {"name": "TestC16Counts", "quick": 60, "thorough": 5760, "min_per_shard": 8},
                   {"name": "TestC16Regress", "quick": 0}],
         "assumptions": COMMON_ASSUMPTIONS + ["reported field length equals the sum of the field's term frequencies (the property's stated domain)"],
     },
     "C17": {
         "level": "exploration",
-        "tests": [{"name": "TestC17Small", "quick": 1200, "thorough": 230400}, {"name": "TestC17Wide", "quick": 60, "thorough": 3840, "min_per_shard": 8}],
+        "tests": [{"name": "TestC17Small", "quick": 1200, "thorough": 230400}, {"name": "TestC17Wide", "quick": 60, "thorough": 3840, "min_per_shard": 8},
+                  {"name": "TestC17ManyFields", "quick": 200, "thorough": 19200, "min_per_shard": 20}, {"name": "TestC17Mid", "quick": 600, "thorough": 115200}],
         "assumptions": [COMMON_ASSUMPTIONS[0], COMMON_ASSUMPTIONS[2], "metamorphic: no reference model is involved, only observational equality of two merge results"],
     },
     "C18": {
@@ -96,19 +102,22 @@ CHECKS = {
     },
     "C07": {
         "level": "exploration",
-        "tests": [{"name": "TestC07Small", "quick": 3000, "thorough": 576000}, {"name": "TestC07Wide", "quick": 400, "thorough": 28800}, {"name": "TestC07Mid", "quick": 1000, "thorough": 192000}, {"name": "TestC07Huge", "quick": 6, "thorough": 480, "min_per_shard": 3}],
+        "tests": [{"name": "TestC07Small", "quick": 3000, "thorough": 576000}, {"name": "TestC07Wide", "quick": 400, "thorough": 28800}, {"name": "TestC07Mid", "quick": 1000, "thorough": 192000}, {"name": "TestC07Huge", "quick": 6, "thorough": 480, "min_per_shard": 3},
+                  {"name": "TestC07Gaps", "quick": 150, "thorough": 14400, "min_per_shard": 10}],
         "assumptions": COMMON_ASSUMPTIONS + ["document numbers passed to VisitDocumentValues are < Count()"],
     },
     "C12": {
         "level": "fault_enumeration",
-        "tests": [{"name": "TestC12Small", "quick": 40, "thorough": 2560, "min_per_shard": 20}, {"name": "TestC12Blocks", "quick": 3, "thorough": 192, "min_per_shard": 3}],
+        "tests": [{"name": "TestC12Small", "quick": 40, "thorough": 2560, "min_per_shard": 20}, {"name": "TestC12Blocks", "quick": 3, "thorough": 192, "min_per_shard": 3},
+                  {"name": "TestC12Wide", "quick": 12, "thorough": 480, "min_per_shard": 4, "max_shards": 8}, {"name": "TestC12WideB", "quick": 12, "thorough": 480, "min_per_shard": 4, "max_shards": 8}],
         "assumptions": ["the injected writer is a conforming io.Writer (returns n < len(p) together with a non-nil error, fails forever afterwards)",
                         "the close channel is closed from inside the destination writer's Write, i.e. at byte granularity of what reaches the writer (coarser than the merger's own polls for large buffers)",
                         COMMON_ASSUMPTIONS[0]],
     },
     "C14": {
         "level": "exploration",
-        "tests": [{"name": "TestC14", "quick": 600, "thorough": 19200}, {"name": "TestC14", "quick": None, "thorough": 3200, "race": True, "max_shards": 8}],
+        "tests": [{"name": "TestC14", "quick": 600, "thorough": 19200}, {"name": "TestC14", "quick": None, "thorough": 3200, "race": True, "max_shards": 8},
+                  {"name": "TestC14Long", "quick": 16, "thorough": 960, "min_per_shard": 8}],
         "assumptions": [COMMON_ASSUMPTIONS[0], "whether a build really started from a recycled pool object is sampled through the verif hook just before the build (sync.Pool is per-P, so this is evidence, not control)",
                         "concurrent builders are scheduled by the Go runtime; interleavings are sampled"],
     },
@@ -119,7 +128,7 @@ CHECKS = {
     },
     "C19": {
         "level": "fault_enumeration",
-        "tests": [{"name": "TestC19Small", "quick": 160, "thorough": 11520, "min_per_shard": 20}, {"name": "TestC19Blocks", "quick": 40, "thorough": 960, "min_per_shard": 5}, {"name": "TestC19Wide", "quick": 12, "thorough": 480, "min_per_shard": 4},
+        "tests": [{"name": "TestC19Small", "quick": 160, "thorough": 11520, "min_per_shard": 20}, {"name": "TestC19Blocks", "quick": 40, "thorough": 960, "min_per_shard": 5}, {"name": "TestC19Wide", "quick": 12, "thorough": 480, "min_per_shard": 4}, {"name": "TestC19Mid", "quick": 200, "thorough": 9600, "min_per_shard": 20},
                   {"name": "TestC19Regress", "quick": 0}, {"name": "TestC19RegressRetry", "quick": 0}, {"name": "TestC19RegressDocValueHeader", "quick": 0}],
         "assumptions": ["storage faults are injected by swapping the unexported io.ReaderAt inside segment.Data (reflect+unsafe, self-tested at start-up) before ice.Load; every ReadAt from index k on fails",
                         "faults during ice.Load itself are not injected (Load is not a read call on a segment)",
@@ -147,7 +156,8 @@ CHECKS = {
                   {"name": "TestC10Small", "quick": 1500, "thorough": 288000},
                   {"name": "TestC10Blocks", "quick": 40, "thorough": 7680, "min_per_shard": 20},
                   {"name": "TestC10Wide", "quick": 15, "thorough": 2880, "min_per_shard": 8},
-                  {"name": "TestC10Big", "quick": 4, "thorough": 192, "min_per_shard": 4}],
+                  {"name": "TestC10Big", "quick": 4, "thorough": 192, "min_per_shard": 4},
+                  {"name": "TestC10Sparse", "quick": 12, "thorough": 960, "min_per_shard": 6}],
         "assumptions": ["the reference is harness/refice: the pinned ice sources at commit 76983be with only the package clause renamed (plus one added export file), compiled into the harness",
                         "facets where the reference itself is defective are excluded by construction and counted in the labels (excluded:*)",
                         "a format change confined to a structure none of the three scenario families produces would pass",
